@@ -24,7 +24,11 @@ SITE = {
     "tinv": "include/TFEL/Math/Matrix/TinyMatrixInvert.ixx:TinyMatrixInvert::exe",
     "qr": "include/TFEL/Math/QR/QRDecomp.ixx:QRDecomp::exe+tq_product+back_substitute",
 }
-PARTS = [(1, 5, True), (6, 8, False), (9, 10, False), (11, 12, False)]   # (first N, last N, runtime-sized entry points)
+# harness parts (first N, last N, runtime-sized entry points).  The fixed-size entry points share one
+# template for every N >= 4, so the quick tier instantiates N in {1..6, 8, 12} only (the runtime-sized
+# entry points run every n = 1..12 in both tiers); the thorough tier instantiates every N = 1..12.
+PARTS_THOROUGH = [(1, 5, True), (6, 8, False), (9, 10, False), (11, 12, False)]
+PARTS_QUICK = [(1, 4, True), (5, 6, False), (8, 8, False), (12, 12, False)]
 DYNAMIC_OPS = ("lu", "lusolve", "qr")
 TOL = Fraction(1, 2 ** 30)   # relative backward error accepted by the property predicate (differing lines only)
 
@@ -239,6 +243,8 @@ def lu_answer_valid(req, ans):
     inv = sum(1 for i in range(n) for j in range(i + 1, n) if p[i] > p[j])
     if d != (-1 if inv % 2 else 1):
         return False, "d is not the sign of p"
+    if req["eps"] == 0 and (not finite(m) or any(m[p[k] * n + k] == 0 for k in range(n))):
+        return True, ""   # eps = 0 : the caller disabled the null-pivot test (outside the theorems)
     if not finite(m):
         if det_exact(req["a"]) == 0:
             return False, "decomposition of an exactly singular matrix reported as successful (non-finite factors)"
@@ -283,6 +289,8 @@ def judge(req, impl, model):
             return lu_answer_valid(req, impl)
         xs = solutions_of(req, impl)
         be = backward_error(a, xs, req["b"])
+        if be is None and req["eps"] == 0:
+            return True, ""   # eps = 0 : the caller disabled the null-pivot test (outside the theorems)
         if be is None:
             if det_exact(a) == 0:
                 return False, "exactly singular system (det = 0) : a non-finite answer is returned instead of a failure"
@@ -312,6 +320,8 @@ def run(ck):
             [vlib.REPO + "/src/Exception/" + f for f in ("TFELException.cxx", "ContractViolation.cxx")] +
             [vlib.REPO + "/src/Math/" + f for f in ("LUException.cxx", "QRException.cxx", "MathException.cxx")])
     # the template-heavy harness is compiled in 4 parts in parallel (fixed sizes split); sanitizers in the thorough tier
+    PARTS = PARTS_QUICK if ck.quick else PARTS_THOROUGH
+    sizes_fixed = [n for n in range(1, 13) if any(lo <= n <= hi for (lo, hi, _) in PARTS)]
     harness = ck.cxx_many([("c07h_%d_%d" % (lo, hi), srcs,
                             ("-DC07_NLO=%d" % lo, "-DC07_NHI=%d" % hi) + (("-DC07_DYNAMIC",) if dyn else ()))
                            for (lo, hi, dyn) in PARTS], sanitize=not ck.quick)
@@ -326,7 +336,7 @@ def run(ck):
     per = 40 if ck.quick else 600
     reqs = []
     for op in ops:
-        for n in range(1, 13):
+        for n in (range(1, 13) if op in DYNAMIC_OPS else sizes_fixed):
             for _ in range(per if n > 3 else 2 * per):
                 reqs.append(make_request(rng, op, n))
     text = "".join(r["line"] + "\n" for r in reqs)
@@ -385,7 +395,8 @@ def run(ck):
             r["op"], r["n"], r["kind"], r["eps"], (impl[i] if i < len(impl) else "?")[:60], (model[i] if i < len(model) else "?")[:60]))
     return ck.finish({
         "evaluations": len(reqs), "distinct_nontrivial": n_nontrivial,
-        "rule": "requests = seeded matrices n=1..12 of 14 kinds (integer, dyadic, dominant, permuted, structurally singular column/row, rank deficient, swap-threshold boundary, Hilbert-like, gaussian, badly scaled, tiny pivot column, zero diagonal) x eps in {100*DBL_MIN, 0.5, 0.25, 1e-6, 1, 2^-20, 0} x 8 entry points; distinct = (entry point, n, ok/fail, identity/non-identity permutation, matrix kind) classes observed; every class runs the full elimination",
+        "sizes_fixed_entry_points": sizes_fixed,
+        "rule": "requests = seeded matrices n=1..12 (fixed-size entry points: the sizes listed in sizes_fixed_entry_points) of 14 kinds (integer, dyadic, dominant, permuted, structurally singular column/row, rank deficient, swap-threshold boundary, Hilbert-like, gaussian, badly scaled, tiny pivot column, zero diagonal) x eps in {100*DBL_MIN, 0.5, 0.25, 1e-6, 1, 2^-20, 0} x 8 entry points; distinct = (entry point, n, ok/fail, identity/non-identity permutation, matrix kind) classes observed; every class runs the full elimination",
         "exhaustive": False, "disagreements": disagreements,
         "traces_validated_against_impl": len(reqs),
         "outcome_histogram": outcomes, "matrix_kind_histogram": kinds,
